@@ -644,7 +644,10 @@ class Tally(StatisticsInterface):
         n = float(self._n)
         # the skewness is undefined (NaN) when the variance is zero
         if n > 1 and self.variance() > 0:
-            skew_biased = (self._m3 / n) / self.variance() ** 1.5 
+            # not variance ** 1.5: float ** raises OverflowError where a 
+            # product of floats overflows to inf
+            var: float = self.variance()
+            skew_biased = (self._m3 / n) / (var * math.sqrt(var))
             if biased:
                 return skew_biased
             elif n > 2:
